@@ -230,6 +230,14 @@ func catalogue(r *rng.R, extra int) []feature {
 	add(named("Flags"), "f") // type Flags []string
 	add(named("Dict"), "f")  // type Dict map[string]int
 	add(named("AliasStr"), "f")
+	// types written as text by their own methods, declared on the value or on the pointer
+	add(named("CodeV"), "f")
+	add(ptr(named("CodeV")), "f,omitempty")
+	add(slice(named("CodeV")), "f")
+	add(ptr(named("CodeP")), "f")
+	add(ptr(named("CodeP")), "f,omitempty")
+	add(slice(ptr(named("CodeP"))), "f")
+	add(mp(ptr(named("CodeP"))), "f")
 	add(sc("time"), "f")
 	add(ptr(sc("time")), "f")
 	add(ptr(sc("time")), "f,omitempty")
@@ -332,6 +340,24 @@ type Inner struct {
 	A string ` + "`json:\"a\"`" + `
 	N *int32 ` + "`json:\"n,omitempty\"`" + `
 }
+
+// CodeV is written as text: encoding.TextMarshaler on the value, TextUnmarshaler on the pointer
+type CodeV struct{ s string }
+
+// MarshalText gives the text
+func (c CodeV) MarshalText() ([]byte, error) { return []byte(c.s), nil }
+
+// UnmarshalText takes any text
+func (c *CodeV) UnmarshalText(b []byte) error { c.s = string(b); return nil }
+
+// CodeP declares both methods on the pointer: only *CodeP is a TextMarshaler
+type CodeP struct{ s string }
+
+// MarshalText gives the text
+func (c *CodeP) MarshalText() ([]byte, error) { return []byte(c.s), nil }
+
+// UnmarshalText takes any text
+func (c *CodeP) UnmarshalText(b []byte) error { c.s = string(b); return nil }
 
 // Plain is a struct without a model annotation
 type Plain struct {
